@@ -358,3 +358,60 @@ func c06CommentEndBehindOpener(ctx *core.Ctx, r *core.Report) {
 	r.Ob("comment-end-behind-opener", "parser.lexer.acceptWS/block-comment", ctx.Pos(end.Pos()), adv >= 2,
 		fmt.Sprintf("the first test for \"*/\" is made %d character(s) behind the start of \"/*\": the end marker can overlap the opener, \"/*/\" counts as a whole comment and the commented-out text is read as statements", adv))
 }
+
+// c01CaseMembersIndexedInHolder: the node that holds a choice finds the members of
+// the choice's cases through its own name index, which is filled when the choice is
+// added. resolver.addDataDefinition is the one place the resolver adds a node to a
+// parent; when that parent is a case, it must also enter the node into the index of
+// the choice's holder — otherwise nodes that reach a case later (uses in a case,
+// nested choice, augment of a choice or case) cannot be found by name.
+func c01CaseMembersIndexedInHolder(ctx *core.Ctx, r *core.Report) {
+	f := ctx.Method("meta", "resolver", "addDataDefinition")
+	if f == nil {
+		r.Fatalf("anchor meta.resolver.addDataDefinition not found")
+		return
+	}
+	var parent *ssa.Parameter
+	for _, p := range f.Params {
+		if p.Name() == "parent" {
+			parent = p
+		}
+	}
+	if parent == nil {
+		r.Fatalf("meta.resolver.addDataDefinition: parameter parent not found")
+		return
+	}
+	// a call that receives `parent.(*ChoiceCase)` and reaches an indexDataDefinition
+	ok := false
+	reachesIndex := func(g *ssa.Function) bool {
+		found := false
+		core.Instrs(g, func(b *ssa.BasicBlock, in ssa.Instruction) {
+			if c, isCall := in.(ssa.CallInstruction); isCall {
+				if c.Common().IsInvoke() && c.Common().Method.Name() == "indexDataDefinition" {
+					found = true
+				}
+				if cal := core.StaticCallee(c); cal != nil && cal.Name() == "indexDataDefinition" {
+					found = true
+				}
+			}
+		})
+		return found
+	}
+	for _, c := range core.CallSites(f) {
+		cal := core.StaticCallee(c)
+		if cal == nil || cal.Pkg == nil || cal.Pkg.Pkg.Name() != "meta" || !reachesIndex(cal) {
+			continue
+		}
+		for _, a := range c.Common().Args {
+			v := core.Strip(a)
+			if ex, isEx := v.(*ssa.Extract); isEx {
+				v = ex.Tuple
+			}
+			if ta, isTa := v.(*ssa.TypeAssert); isTa && core.Strip(ta.X) == ssa.Value(parent) && strings.HasSuffix(core.TypeName(ta.AssertedType), "meta.ChoiceCase") {
+				ok = true
+			}
+		}
+	}
+	r.Ob("case-members-indexed-in-holder", "meta.resolver.addDataDefinition/case-parent", ctx.Pos(f.Pos()), ok,
+		"a node added to a case is not entered into the name index of the node that holds the choice: a node that reaches the case after the choice was added (uses inside a case, nested choice, augment of a choice or case) cannot be addressed by name, and switching away from its case fails")
+}
